@@ -373,6 +373,15 @@ func c13Known(cdc *cdcCodec, v0 reflect.Value, ap c13Applied, obs, detail string
 	if baseHasEmptyKey && strings.HasPrefix(cdc.Name, "types.") {
 		return "KF-C13-12", "the base value has a zero-length storage key; Storage.Decode returns early there (see KF-C11-7): " + detail
 	}
+	// decoders that mis-parse even valid input: the strict parser's view of the bytes is not theirs
+	switch {
+	case name == "MetaCode":
+		return "KF-C13-13", "MetaCode.Decode early returns and short reads (see KF-C11-3): " + detail
+	case name == "Operand":
+		return "KF-C13-16", "Operand.Decode reads the gas limit twice (see KF-C11-5): " + detail
+	case name == "AccumulatedServiceOutput" && obs == "non-canonical":
+		return "KF-C13-17", "AccumulatedServiceOutput.Encode is not deterministic (see KF-C11-1): " + detail
+	}
 	if rej != nil {
 		d := "reference parser: " + rej.String() + "; " + detail
 		switch {
@@ -409,12 +418,6 @@ func c13Known(cdc *cdcCodec, v0 reflect.Value, ap c13Applied, obs, detail string
 		return "KF-C13-11", "the input parses to exactly the consumed length only under 'WorkItem ends after an import-segment count of 0' (see KF-C11-2): " + detail
 	case c13Has(cdc, types.Storage{}) && strings.HasPrefix(cdc.Name, "types.") && (strings.HasSuffix(mpath, ".keylen") || laxExplains("storage")):
 		return "KF-C13-12", "the input parses to exactly the consumed length only under 'Storage ends at a zero key length' (see KF-C11-7): " + detail
-	case name == "MetaCode":
-		return "KF-C13-13", "MetaCode.Decode early returns and short reads (see KF-C11-3): " + detail
-	case name == "Operand":
-		return "KF-C13-16", "Operand.Decode reads the gas limit twice (see KF-C11-5): " + detail
-	case name == "AccumulatedServiceOutput" && obs == "non-canonical":
-		return "KF-C13-17", "AccumulatedServiceOutput.Encode is not deterministic (see KF-C11-1): " + detail
 	}
 	return "", ""
 }
